@@ -1,9 +1,145 @@
 """C09, database part: FingerprintDatabase.__eq__ as coded (fp_type, level, bits, fp_num, name index, (a-b).nnz == 0) against
 Model/Db.v db_eq; theorem Proofs/DbFold.v db_eq_spec.  Called by props/c09.py as part(ctx) -> found_input."""
+from fractions import Fraction
+import numpy as np
 import dbgen
 
 
+def _ins_sorted(row, cell):
+    """cell put where it keeps the row's column order when the row is ordered; appended otherwise."""
+    cols = [j for j, _ in row]
+    if cols == sorted(cols):
+        return sorted(row + [cell], key=lambda jv: jv[0])
+    return row + [cell]
+
+
+def near_relatives(rng, o, kind):
+    """[(tag, level, bits, rows, names)]: databases that differ from the observed one `o` in exactly one respect (one stored
+    value, one cell, the order of the rows under unchanged names, rows and names permuted together, one name, the level, the
+    length, a row boundary) or in nothing that equality looks at (properties dropped, an explicitly stored zero)."""
+    rows, names, bits, level = [list(r) for r in o['rows']], list(o['names']), o['bits'], o['level']
+    n = len(rows)
+    out = [('same-without-props', level, bits, rows, names)]
+    cells = [(i, p) for i, r in enumerate(rows) for p in range(len(r))]
+    if cells and kind != 'KBit':
+        i, p = rng.choice(cells)
+        j, v = rows[i][p]
+        if kind == 'KCount':
+            w = v + 1 if v < 65535 else v - 1
+        else:
+            w = Fraction(float(np.nextafter(float(v), np.inf))) if rng.random() < 0.5 else v + Fraction(1, 4)
+        r2 = [list(r) for r in rows]
+        r2[i][p] = (j, w)
+        out.append(('one-value', level, bits, r2, names))
+    if cells:
+        i, p = rng.choice(cells)
+        r2 = [list(r) for r in rows]
+        del r2[i][p]
+        out.append(('one-cell-less', level, bits, r2, names))
+    free = [(i, j) for i in range(n) for j in (0, 1, bits - 1, bits // 2) if 0 <= j < bits and j not in [c for c, _ in rows[i]]]
+    if free:
+        i, j = rng.choice(free)
+        r2 = [list(r) for r in rows]
+        r2[i] = _ins_sorted(r2[i], (j, Fraction(1)))
+        out.append(('one-cell-more', level, bits, r2, names))
+        i, j = rng.choice(free)
+        r2 = [list(r) for r in rows]
+        r2[i] = _ins_sorted(r2[i], (j, Fraction(0)))
+        out.append(('explicit-zero-stored', level, bits, r2, names))
+    if n >= 2:
+        out.append(('rows-rotated-names-kept', level, bits, rows[1:] + rows[:1], names))
+        out.append(('rows-and-names-rotated', level, bits, rows[1:] + rows[:1], names[1:] + names[:1]))
+        for i in range(n - 1):
+            a, b = rows[i], rows[i + 1]
+            if a and (not b or a[-1][0] < b[0][0]):
+                r2 = [list(r) for r in rows]
+                r2[i + 1] = [r2[i].pop()] + r2[i + 1]
+                out.append(('row-boundary-moved', level, bits, r2, names))
+                break
+            if b and (not a or b[0][0] > a[-1][0]):
+                r2 = [list(r) for r in rows]
+                r2[i].append(r2[i + 1].pop(0))
+                out.append(('row-boundary-moved', level, bits, r2, names))
+                break
+    if n >= 1:
+        k = rng.randrange(n)
+        out.append(('one-name', level, bits, rows, names[:k] + ['zz_other' if names[k] != 'zz_other' else 'a'] + names[k + 1:]))
+    out.append(('level', rng.choice([l for l in (-1, 0, 5, None, 300) if l != level]), bits, rows, names))
+    if 0 < bits * 2 <= 2 ** 32:
+        out.append(('length-doubled', level, bits * 2, rows, names))
+    return out
+
+
+def part_near(ctx):
+    """equality of a database with its near relatives (model comparison of every pair after every step, plus symmetry,
+    reflexivity, transitivity and `!=` on the implementation)."""
+    rng = ctx.rng
+    found = False
+    hists = {}
+    dist = ctx.coverage.setdefault('input_distribution_db', {})
+    for i in range(ctx.n(30, 400)):
+        h = dbgen.History(rng)
+        h.MAX_LIVE = 14
+        h.warmup()
+        cands = [x for x in h.live if h.pool[x].array is not None and h.pool[x].fp_num]
+        if not cands:
+            continue
+        a = rng.choice(cands)
+        d = h.pool[a]
+        kind = dbgen.kind_of_type(d.fp_type)
+        rel = near_relatives(rng, dbgen.obs_db(d), kind)
+        rng.shuffle(rel)
+        made = []
+        for tag, level, bits, rows, names in rel[:6]:
+            r = h.op_from_array(kind, level, bits, False, kind, rows, names, [])
+            if r[0] == 'ok':
+                made.append((tag, len(h.pool) - 1))
+                dist['near/' + tag] = dist.get('near/' + tag, 0) + 1
+        if rng.random() < 0.5:
+            # databases without a matrix (`array is None` on one or both sides) and one with a matrix of zero rows
+            for lv, kd in ((d.level, kind), (d.level, kind), (rng.choice([l for l in (-1, 0, 5, None) if l != d.level]), kind),
+                           (d.level, rng.choice([k for k in dbgen.KINDS if k != kind]))):
+                if h.op_new(kd, lv)[0] == 'ok':
+                    made.append(('no-matrix', len(h.pool) - 1))
+            if h.op_subset(a, [])[0] == 'ok':
+                made.append(('zero-rows', len(h.pool) - 1))
+            dist['near/no-matrix-and-zero-rows'] = dist.get('near/no-matrix-and-zero-rows', 0) + 1
+        res = {}
+        hs = [a] + [x for _, x in made]
+        for x in hs:
+            for y in hs:
+                res[(x, y)] = h.op_eq(x, y) if (x == a or y == a or x == y or rng.random() < 0.25) else None
+                if res[(x, y)] is None:
+                    continue
+                ctx.count(('c09db-near', i, x, y), x != y)
+                ne = dbgen.attempt(lambda: bool(h.pool[x] != h.pool[y]))
+                if res[(x, y)][0] == 'ok' and ne != ('ok', not res[(x, y)][1]):
+                    found = True
+                    ctx.fail('database != is not the negation of == (%r, %r)' % (res[(x, y)], ne), {'ops': dbgen.descs_of(h.steps), 'pair': [x, y]},
+                             finding_key='dbeq-ne-not-negation')
+        for x in hs:
+            if res[(x, x)] != ('ok', True):
+                found = True
+                ctx.fail('database == is not reflexive', {'ops': dbgen.descs_of(h.steps), 'handle': x}, finding_key='dbeq-irreflexive')
+            for y in hs:
+                if res[(x, y)] is not None and res[(y, x)] is not None and res[(x, y)] != res[(y, x)]:
+                    found = True
+                    ctx.fail('database == is not symmetric', {'ops': dbgen.descs_of(h.steps), 'pair': [x, y]}, finding_key='dbeq-asymmetric')
+                for z in hs:
+                    if res[(x, y)] == ('ok', True) and res[(y, z)] == ('ok', True) and res[(x, z)] not in (None, ('ok', True)):
+                        found = True
+                        ctx.fail('database == is not transitive', {'ops': dbgen.descs_of(h.steps), 'triple': [x, y, z]}, finding_key='dbeq-intransitive')
+        hists['c09db-near-%d' % i] = h
+    nbad = dbgen.check_histories(ctx, hists, 'C09 database equality (near relatives)', finding_key_of=lambda h, st: 'dbeq:model-vs-impl')
+    return found or nbad > 0
+
+
 def part(ctx):
+    found_near = part_near(ctx)
+    return _part_histories(ctx) or found_near
+
+
+def _part_histories(ctx):
     rng = ctx.rng
     found = False
     hists = {}
